@@ -24,9 +24,13 @@ static bool consistent(GlobalGraph& g, string& why) {
 int main(int argc, char** argv) {
   Args a(argc, argv); string fn = a.s("fn"); const unsigned NU = 3, NE = 4;
   bool directed = a.b("in_directed"); G g(directed);
-  for (unsigned i = 0; i < NU; ++i) g.createNode();
+  // id counters of the verifier's pre-state: as many nodes as the node counter says; the edge counter is pumped by link / unlink pairs
+  unsigned hn = a.has("in_hn") ? (unsigned)a.u("in_hn") : NU, he = a.has("in_he") ? (unsigned)a.u("in_he") : 0;
+  for (unsigned i = 0; i < hn; ++i) g.createNode();
+  if (he > 0 && hn < 1) { cout << "could not rebuild the pre-state: edge ids were handed out but no node id was\n"; return 3; }
+  for (unsigned k = 0; k < he; ++k) { g.link(0, 0); g.unlink(0, 0); }
   for (unsigned e = 0; e < NE; ++e) if (a.has("in_ep_" + to_string(e)) && a.b("in_ep_" + to_string(e))) g.link((unsigned)a.u("in_ea_" + to_string(e)), (unsigned)a.u("in_eb_" + to_string(e)), e);
-  for (unsigned i = 0; i < NU; ++i) if (!(a.has("in_np_" + to_string(i)) && a.b("in_np_" + to_string(i)))) g.deleteNode(i);
+  for (unsigned i = 0; i < hn; ++i) if (!(a.has("in_np_" + to_string(i)) && a.b("in_np_" + to_string(i)))) g.deleteNode(i);
   string why; if (!consistent(g, why)) { cout << "could not rebuild the pre-state: " << why << endl; return 3; }
   unsigned x = a.has("in_a") ? (unsigned)a.u("in_a") : 0, y = a.has("in_b") ? (unsigned)a.u("in_b") : 0, z = a.has("in_x") ? (unsigned)a.u("in_x") : 0;
   cout << fn << ": " << (directed ? "directed" : "undirected") << " graph with " << g.getNumberOfNodes() << " nodes, " << g.getNumberOfEdges() << " edges; arguments " << x << ", " << y << ", " << z << endl;
